@@ -1,6 +1,7 @@
 (* C11 — replacement rewrites exactly the first n matches and nothing else. *)
 From FR Require Import Base Utf8 Api ApiProofs.
 From FR Require Import State Utf8Facts Chars Ast Analyze Sem SemSound Vm Compile Param ArrowA CompileCorrect KeepOut EndToEnd ApiVm.
+From FR Require Import ApiTotal.
 From Coq Require Import NArith Lia.
 
 
@@ -65,3 +66,28 @@ Print Assumptions C11_replacen.
 Print Assumptions C11_paths_agree.
 Print Assumptions C11_no_panic.
 Print Assumptions C11_vm_replacen.
+
+(* try_replacen over a VM-compiled regex, with no assumption on the model's step budget *)
+Theorem C11_vm_replacen_total : forall cs bs e p, VmScope cs bs e p ->
+  forall ng max_st limit, exists n0, forall fuelv, n0 <= fuelv ->
+  forall rep lim,
+  try_replacen (concat cs) rep (mnext (concat cs) (vsearch cs p ng max_st limit fuelv)) lim =
+  match vm_matches cs p ng max_st limit fuelv with
+  | [] => RBorrowed
+  | _ => rspec (concat cs) rep lim 0 0 (vm_matches cs p ng max_st limit fuelv) []
+  end /\
+  try_replacen (concat cs) rep (mnext (concat cs) (vsearch cs p ng max_st limit fuelv)) lim <> RPanicR.
+Proof.
+  intros cs bs e p HS ng max_st limit. destruct (vm_api_total cs bs e p HS ng max_st limit) as [n0 H].
+  exists n0. intros fuelv Hf rep lim. destruct (H fuelv Hf) as (_ & _ & Hr). exact (Hr rep lim).
+Qed.
+Check C11_vm_replacen_total : forall cs bs e p, VmScope cs bs e p ->
+  forall ng max_st limit, exists n0, forall fuelv, n0 <= fuelv ->
+  forall rep lim,
+  try_replacen (concat cs) rep (mnext (concat cs) (vsearch cs p ng max_st limit fuelv)) lim =
+  match vm_matches cs p ng max_st limit fuelv with
+  | [] => RBorrowed
+  | _ => rspec (concat cs) rep lim 0 0 (vm_matches cs p ng max_st limit fuelv) []
+  end /\
+  try_replacen (concat cs) rep (mnext (concat cs) (vsearch cs p ng max_st limit fuelv)) lim <> RPanicR.
+Print Assumptions C11_vm_replacen_total.
